@@ -9,11 +9,12 @@ use serde_json::Value;
 /// every row filled with distinct letters (so rows are soft-wrapped into each other)
 fn seed(cfg: &Cfg) -> Vec<Cmd> {
     let n = cfg.cols * cfg.rows;
-    // letters, with a double-width and a Latin-1 character mixed in
+    // letters, with a double-width, a Latin-1 and a zero-width (combining) character mixed in
     let s: String = (0..n)
-        .map(|i| match i % 5 {
-            1 => '漢',
-            3 => 'é',
+        .map(|i| match (i % 5, i % 7) {
+            (_, 5) => '\u{301}',
+            (1, _) => '漢',
+            (3, _) => 'é',
             _ => char::from_u32('a' as u32 + (i % 26) as u32).unwrap(),
         })
         .collect();
@@ -41,6 +42,7 @@ fn alpha(cfg: &Cfg) -> Vec<Op> {
     // setup
     v.push(t("x"));
     v.push(t("漢"));
+    v.push(t("\u{301}"));
     v.push(t("E"));
     v.push(Op::text(&"w".repeat(cfg.cols)));
     for r in 1..=rows {
@@ -142,6 +144,8 @@ fn wide_cfgs(tier: Tier) -> Vec<Cfg> {
     v
 }
 
+static SYS_SPARSE: LockStep = LockStep { property: "C07", probes: false, seed: Some(&super::sweep::fill_sparse) };
+
 static SYS_RESIZE: LockStep = LockStep { property: "C07", probes: false, seed: None };
 
 /// erasing after the screen changed its size: blanks carry the current pen in the columns
@@ -196,6 +200,7 @@ pub fn run(ctx: &Ctx) -> Report {
     run_part(ctx, &mut rep, &medium_part(ctx.tier));
     run_part(ctx, &mut rep, &super::sweep::sweep_part("edit-large-screen-parameter-sweep", &SYS_SWEEP, &alpha_sweep, ctx.tier));
     run_part(ctx, &mut rep, &super::sweep::wide_part_on("edit-realistic-screen-parameter-sweep", &SYS_SWEEP, &alpha_wide, wide_cfgs(ctx.tier), ctx.tier));
+    run_part(ctx, &mut rep, &super::sweep::wide_part_on("edit-realistic-screen-sparse-content", &SYS_SPARSE, &alpha_wide, wide_cfgs(ctx.tier), ctx.tier));
     run_part(ctx, &mut rep, &resize_part(ctx.tier));
     rep.rule = "lock-step BFS of (real Vt, reference terminal) from a screen completely filled with distinct letters (all rows soft-wrapped) and from a blank screen: ED/EL x selectors {default,0,1,2}, ECH/ICH/DCH x counts {default,0,1,2,w-1,w,w+1,65535}, DECALN, with the cursor on every cell and in the wrap-pending column, three pens; every cell of lines(), the cursor (exact, incl. the pending column) and the specified wrap marks are compared after every transition".into();
     rep.assumptions = vec!["erase extents are computed from the reported column (R2); marks after EL 1 / ED 1 on the cursor row, ICH and DECALN are adopted".into()];
@@ -209,6 +214,7 @@ pub fn replay(ctx: &Ctx, v: &Value) -> bool {
         "edit-lockstep-medium-screen" => replay_part(ctx, &medium_part(tier), v),
         "edit-large-screen-parameter-sweep" => replay_part(ctx, &super::sweep::sweep_part("edit-large-screen-parameter-sweep", &SYS_SWEEP, &alpha_sweep, tier), v),
         "edit-realistic-screen-parameter-sweep" => replay_part(ctx, &super::sweep::wide_part_on("edit-realistic-screen-parameter-sweep", &SYS_SWEEP, &alpha_wide, wide_cfgs(tier), tier), v),
+        "edit-realistic-screen-sparse-content" => replay_part(ctx, &super::sweep::wide_part_on("edit-realistic-screen-sparse-content", &SYS_SPARSE, &alpha_wide, wide_cfgs(tier), tier), v),
         "edit-after-resize-lockstep" => replay_part(ctx, &resize_part(tier), v),
         "edit-lockstep-filled-screen" => replay_part(ctx, &a, v),
         _ => replay_part(ctx, &b, v),
